@@ -310,6 +310,15 @@ def run_case(case):
                 must_raise = [(m.name, m.data) for m in a.members] != [(m.name, m.data if m.kind != "dir" else None) for m in built.model]
             except (ref7z.FormatError, ref7z.CodecError):
                 must_raise = holds_data
+                if must_raise:
+                    # second opinion (as in C19): the reference reader's one-shot decoders also reject a stream whose own check
+                    # value or trailer is hit while every member byte is intact (BZip2 block CRC behind a 1-byte member: py7zr
+                    # has its byte, and the member's CRC, before the decoder gets there).  If the library's sequential path
+                    # delivers exactly the archived bytes there is nothing that must surface.
+                    o2 = _run_plain(py7zr, image, "stream", "factory", outdir, None)
+                    if o2[0] == "ok" and o2[2] == model_products:
+                        must_raise = False
+                        res["extra"]["reference_rejects_but_every_byte_is_delivered"] = 1
             except ref7z.Unsupported:
                 must_raise = False
             res["faults"]["worker_damaged_folder"] = 1
